@@ -73,7 +73,7 @@ func (propC14) Level() string  { return "exploration" }
 func (propC14) NewParams() any { return &C14Params{} }
 func (propC14) Plan(tier string) (int, int) {
 	if tier == "thorough" {
-		return 600000, 0
+		return 6000000, 0
 	}
 	return 20000, 0
 }
